@@ -64,7 +64,7 @@ def oracleC01 (c : PCase) (ops : List (List String)) (o : PObs) : Bool :=
     | none => false
     | some vt =>
       let vsamples := vt.samples o.file
-      let vok := vsamples.map (fun s => (s.1, s.2.1)) == vs.map (fun f => (mp4Payload (isAnnexB c) f.data, f.key))
+      let vok := vsamples.map (fun s => (s.1, s.2.1)) == vs.map (fun f => (mp4PayloadFast (isAnnexB c) f.data, f.key))
       let (aok, aranges) := match audioTrack? m with
         | none => (aus.isEmpty && !audioConfigured c, [])
         | some at_ => ((at_.samples o.file).map (·.1) == aus.map (fun f => audioPayload (isAdts c) f.data), at_.ranges)
